@@ -139,7 +139,7 @@ impl Prop for Unrelated {
         "C19/unrelated".into()
     }
     fn rule(&self) -> String {
-        "accepted multi-module program P from the rich generator, an observed module M, and a change restricted to modules outside M's transitive `use` closure: add a fresh module (in a fresh directory, at the top, below M's own path or next to M; sorting before or after everything; often defining short names M uses or types named like M's members or built-ins; sometimes with extern values, rust backend text, impl blocks of its own, a vftable block copied verbatim from a type M uses together with own definitions of the type names it mentions, and impl blocks for a type of M that it imports but does not define), add items (types, enums, extern types, vftable owners named like things M uses) to an unrelated module, remove an unrelated module nobody imports, remove the last item of an unrelated leaf module, reorder the modules. Oracle: when P and P+change are both accepted, <M>.rs is byte-identical. Pairs where P+change is rejected are discarded and counted. Non-trivial: M has a cross-module reference and the change touches a module that shares a short type name with something M's closure uses".into()
+        "accepted multi-module program P from the rich generator, an observed module M, and a change restricted to modules outside M's transitive `use` closure: add a fresh module (in a fresh directory, at the top, below M's own path, next to M, or next to a nested M under the name of the first segment of one of M's imports; sorting before or after everything; often defining short names M uses or types named like M's members or built-ins; sometimes with extern values, rust backend text, impl blocks of its own, a vftable block copied verbatim from a type M uses together with own definitions of the type names it mentions, and impl blocks for a type of M that it imports but does not define), add items (types, enums, extern types, vftable owners named like things M uses) to an unrelated module, remove an unrelated module nobody imports, remove the last item of an unrelated leaf module, reorder the modules. Oracle: when P and P+change are both accepted, <M>.rs is byte-identical. Pairs where P+change is rejected are discarded and counted. Non-trivial: M has a cross-module reference and the change touches a module that shares a short type name with something M's closure uses".into()
     }
     fn gen(&self, t: &mut Tape) -> Case {
         let w = if t.chance(1, 2) { 8 } else { 4 };
@@ -183,10 +183,38 @@ impl Prop for Unrelated {
                         _ => {}
                     }
                     path.push(stem);
+                    // or: a sibling of the (nested) observed module that is called like the first segment of one of
+                    // its root-relative imports (game/entity.pyxis says `use math::Vec3;`, the new file is game/math.pyxis)
+                    let mut sibling_import: Option<Vec<String>> = None;
+                    if obs_path.len() >= 2 && !p1.mods[obs].uses.is_empty() && t.chance(1, 3) {
+                        let u = p1.mods[obs].uses[t.below(p1.mods[obs].uses.len() as u64) as usize].clone();
+                        if !u.is_empty() {
+                            let mut sp: Vec<String> = obs_path[..obs_path.len() - 1].to_vec();
+                            sp.push(u[0].clone());
+                            if !p2.mods.iter().any(|x| x.path == sp) && !p1.mods.iter().any(|x| x.path == sp) {
+                                path = sp;
+                                sibling_import = Some(u);
+                            }
+                        }
+                    }
                     let mut m = Mod {
                         path,
                         ..Default::default()
                     };
+                    if let Some(u) = &sibling_import {
+                        // it defines what the import names (the last segment when that is a type, and the names M uses)
+                        if let Some(last) = u.last() {
+                            if u.len() >= 2 && !m.items.iter().any(|i| i.name() == last) {
+                                m.items.push(simple_type(last, 2 * t.below(6), w));
+                                shares = true;
+                            }
+                        }
+                        for n in used_vec.iter().take(4) {
+                            if !m.items.iter().any(|i| i.name() == n) && crate::refmodel::builtin_size(n).is_none() && n != "void" {
+                                m.items.push(simple_type(n, 2 * t.below(6), w));
+                            }
+                        }
+                    }
                     // extern values, backend text and impl blocks of its own
                     if t.chance(1, 4) {
                         m.ext_vals.push(ExtVal {
